@@ -5,7 +5,10 @@ import (
 	"errors"
 	"fmt"
 	"math"
+	"reflect"
+	"sort"
 	"strconv"
+	"strings"
 	"sync"
 
 	"github.com/graphql-go/graphql"
@@ -137,11 +140,77 @@ type RunCtx struct {
 	Outs   []OutEntry
 	mu     sync.Mutex
 	Calls  []Call
-	Events []string          // generic event log (C13, C17, ...)
-	NodeID map[int]int       // source offset of a field's start -> node id (set by the printer)
-	Built  *Built            // schema the request runs against
+	Events []string    // generic event log (C13, C17, ...)
+	NodeID map[int]int // source offset of a field's start -> node id (set by the printer)
+	Built  *Built      // schema the request runs against
 	Extra  map[string]interface{}
 	OnCall func(tn, fn string, p graphql.ResolveParams) // optional observer (gates etc.)
+	TCalls []TCall
+	// what the caller passed in, for the accuracy checks of C20
+	Root       interface{}
+	RootTag    string
+	OpName     string
+	OpKind     string
+	FragNames  []string
+	MutateArgs bool
+}
+
+func samePointer(a, b interface{}) bool {
+	if a == nil || b == nil {
+		return a == nil && b == nil
+	}
+	va, vb := reflect.ValueOf(a), reflect.ValueOf(b)
+	if va.Kind() != vb.Kind() {
+		return false
+	}
+	switch va.Kind() {
+	case reflect.Map, reflect.Ptr, reflect.Slice, reflect.Func:
+		return va.Pointer() == vb.Pointer()
+	}
+	return reflect.DeepEqual(a, b)
+}
+
+// normTag maps the per-run root tag back to the specification's "r".
+func (rc *RunCtx) normTag(t string) string {
+	if rc.RootTag != "" && rc.RootTag != "r" && strings.HasPrefix(t, rc.RootTag) {
+		return "r" + t[len(rc.RootTag):]
+	}
+	return t
+}
+
+func (rc *RunCtx) infoComplaints(info graphql.ResolveInfo) []string {
+	var out []string
+	if rc.Built != nil && info.Schema.QueryType() != rc.Built.Schema.QueryType() {
+		out = append(out, "Info.Schema is not the request's schema")
+	}
+	if rc.Root != nil && !samePointer(info.RootValue, rc.Root) {
+		out = append(out, fmt.Sprintf("Info.RootValue is not the request's root value (%v)", info.RootValue))
+	}
+	if rc.OpKind != "" {
+		op, _ := info.Operation.(*ast.OperationDefinition)
+		if op == nil {
+			out = append(out, "Info.Operation is not an operation definition")
+		} else {
+			name := ""
+			if op.Name != nil {
+				name = op.Name.Value
+			}
+			if op.Operation != rc.OpKind || name != rc.OpName {
+				out = append(out, fmt.Sprintf("Info.Operation is %s %q, selected %s %q", op.Operation, name, rc.OpKind, rc.OpName))
+			}
+		}
+		got := make([]string, 0, len(info.Fragments))
+		for k := range info.Fragments {
+			got = append(got, k)
+		}
+		sort.Strings(got)
+		want := append([]string(nil), rc.FragNames...)
+		sort.Strings(want)
+		if strings.Join(got, ",") != strings.Join(want, ",") {
+			out = append(out, fmt.Sprintf("Info.Fragments has %v, document defines %v", got, want))
+		}
+	}
+	return out
 }
 
 type ctxKey struct{}
@@ -158,9 +227,9 @@ func RunOf(ctx context.Context) *RunCtx {
 	return rc
 }
 
-func (rc *RunCtx) outcome(tn, fn string) Outcome {
+func (rc *RunCtx) outcome(tn, fn, tag string) Outcome {
 	for _, e := range rc.Outs {
-		if e.T == tn && e.F == fn {
+		if e.T == tn && e.F == fn && (e.Src == "" || e.Src == "*" || e.Src == tag) {
 			return e.O
 		}
 	}
@@ -295,9 +364,20 @@ func (b *Built) resolver(tn string, fd FieldDef) graphql.FieldResolveFn {
 		case nil:
 			srcTag = "nil"
 		}
+		srcTag = rc.normTag(srcTag)
 		call := Call{P: pathStrings(p.Info.Path), Pt: "", F: p.Info.FieldName, Src: srcTag, Args: argsNV(p.Args)}
 		if p.Info.ParentType != nil {
 			call.Pt = p.Info.ParentType.Name()
+		}
+		call.RtStr = fmt.Sprintf("%v", p.Info.ReturnType)
+		call.VV = Value{K: "obj", Fields: argsNV(p.Info.VariableValues)}.Canon()
+		call.Info = rc.infoComplaints(p.Info)
+		if rc.MutateArgs {
+			// an argument-mutating resolver: the map it received must be its own copy
+			for k := range p.Args {
+				delete(p.Args, k)
+			}
+			p.Args["__mutated"] = true
 		}
 		for _, fa := range p.Info.FieldASTs {
 			if fa != nil && fa.Loc != nil {
@@ -314,7 +394,7 @@ func (b *Built) resolver(tn string, fd FieldDef) graphql.FieldResolveFn {
 		if rc.OnCall != nil {
 			rc.OnCall(tn, fd.Name, p)
 		}
-		oc := rc.outcome(tn, fd.Name)
+		oc := rc.outcome(tn, fd.Name, srcTag)
 		nat := func() interface{} { return b.naturalValue(fd.Type, srcTag+"."+fd.Name, fd.Name, oc) }
 		switch oc.K {
 		case "val":
@@ -342,6 +422,16 @@ func (b *Built) resolver(tn string, fd FieldDef) graphql.FieldResolveFn {
 			return func() int { return 1 }, nil
 		case "wrong":
 			return wrongKind{X: 1}, nil
+		case "big":
+			return 3000000000, nil
+		case "badenum":
+			return EInt("nope"), nil
+		case "nilitem":
+			v := nat()
+			if l, ok := v.([]interface{}); ok && len(l) >= 2 {
+				l[1] = nil
+			}
+			return v, nil
 		}
 		return nil, fmt.Errorf("harness: unknown outcome %q", oc.K)
 	}
@@ -363,6 +453,15 @@ func Build(s *Schema) (*Built, error) {
 			}
 		}
 		s, ok := p.Value.(*Src)
+		if rc := RunOf(p.Context); rc != nil {
+			tc := TCall{P: pathStrings(p.Info.Path), V: "?"}
+			if ok && s != nil {
+				tc.V = rc.normTag(s.Tag)
+			}
+			rc.mu.Lock()
+			rc.TCalls = append(rc.TCalls, tc)
+			rc.mu.Unlock()
+		}
 		if !ok || s == nil || s.Rt == "" {
 			return nil
 		}
